@@ -1,6 +1,7 @@
 package kit
 
 import (
+	"fmt"
 	"io"
 	"time"
 
@@ -124,7 +125,10 @@ func NewMember(name string, interval time.Duration) Member { //nolint:cyclop
 		opts := []packetdump.PacketDumperOption{
 			packetdump.RTPWriter(io.Discard), packetdump.RTCPWriter(io.Discard), packetdump.WithLoggerFactory(lf),
 			packetdump.RTPBinaryFormatter(func(p *rtp.Packet, _ interceptor.Attributes) ([]byte, error) { return p.Marshal() }),
-			packetdump.RTCPBinaryFormatter(func(p rtcp.Packet, _ interceptor.Attributes) ([]byte, error) { return p.Marshal() }),
+			// (not p.Marshal(): pion/rtcp's ExtendedReport.Marshal writes block headers into the packet, which races with every other holder of it)
+			packetdump.RTCPBinaryFormatter(func(p rtcp.Packet, _ interceptor.Attributes) ([]byte, error) {
+				return []byte(fmt.Sprintf("%T", p)), nil
+			}),
 			packetdump.RTPFilter(func(p *rtp.Packet) bool { return p.SequenceNumber%3 != 0 }),
 			packetdump.RTCPPerPacketFilter(func(p rtcp.Packet) bool {
 				_, isRR := p.(*rtcp.ReceiverReport)
